@@ -5,8 +5,8 @@ from ..summary import Item, items, modules, is_ok, bv
 
 ID = 'C17'
 ENGINE_B = {'template': 't_marks', 'kinds': ['marks_', 'layout_', 'enum_'], 'max_quick': 24, 'max_thorough': 96, 'marks': True,
-            'fixed': [[8, 1, 1, 0, 1, 1, 0, 1, 0, 2, 1, 2, 1, 1, 0, 1, 1, 1, 2, 2], [8, 0, 0, 1, 0, 0, 1, 0, 1, 0, 2, 0, 0, 0, 1, 0, 2, 0, 1, 0],
-                      [8, 1, 0, 0, 0, 0, 0, 0, 1, 1, 0, 0, 1, 0, 0, 0, 0, 0, 0, 1], [8, 1, 1, 1, 1, 1, 1, 1, 1, 2, 2, 2, 1, 1, 1, 1, 2, 1, 2, 2]]}
+            'fixed': [[8, 1, 1, 0, 1, 1, 0, 1, 0, 2, 1, 2, 1, 1, 0, 1, 1, 1, 2, 2, 0], [8, 0, 0, 1, 0, 0, 1, 0, 1, 0, 2, 0, 0, 0, 1, 0, 2, 0, 1, 0, 1],
+                      [8, 1, 0, 0, 0, 0, 0, 0, 1, 1, 0, 0, 1, 0, 0, 0, 0, 0, 0, 1, 0], [8, 1, 1, 1, 1, 1, 1, 1, 1, 2, 2, 2, 1, 1, 1, 1, 2, 1, 2, 2, 1]]}
 EXPLANATION = ('Template t_marks declares a module with a doc comment, a type (public or private, any subset of copyable / cloneable / '
                'defaultable, packed or aligned, 0..2 doc lines) with two fields (public / private, documented or not), an address-bound '
                'function and a virtual function (public / private, documented or not) and an enum with the same markers.  It is executed '
@@ -19,7 +19,7 @@ EXPLANATION = ('Template t_marks declares a module with a doc comment, a type (p
                'line on the counterparts of its item and nowhere else).')
 ASSUMPTIONS = ['the all-inputs part is the semantic model; the emitted text and its rustc view are decided for the sampled witnesses only',
                'doc comments reach the semantic stage as doc attributes (the parser step is C18, not applicable)',
-               'inherited copies of documented functions (derived types) are not in this template']
+               'one derived type (one base, public or private base field) carries the inherited copy of one documented function; deeper hierarchies are C07\'s']
 
 
 def bounds(tier):
@@ -34,14 +34,15 @@ DOCS = (9, 10, 11, 16, 18, 19)
 def assume(a, ps, tier, group):
     """the type group varies everything about T, its fields and its impl function; the other group varies the enum, the virtual function and the
     module doc; the group that is not varied is pinned to one representative description (the flags are independent in the code under test)"""
-    A = [a[0] == ps] + [z3.ULE(a[i], 1) for i in (1, 2, 3, 4, 5, 6, 7, 8, 12, 13, 14, 15, 17)] + [z3.ULE(a[i], 2) for i in DOCS]
-    tgroup = (1, 2, 3, 4, 5, 6, 7, 8, 9, 10, 11); ogroup = (12, 13, 14, 15, 16, 17, 18, 19)
+    A = [a[0] == ps] + [z3.ULE(a[i], 1) for i in (1, 2, 3, 4, 5, 6, 7, 8, 12, 13, 14, 15, 17, 20)] + [z3.ULE(a[i], 2) for i in DOCS]
+    tgroup = (1, 2, 3, 5, 6, 7, 8, 9, 10); ogroup = (12, 13, 14, 15, 16, 17, 18, 19)      # a[4], a[11], a[20] (function and base field) vary in both groups
     pinned = ogroup if group == 'type' else tgroup
-    PIN = {1: 1, 2: 1, 3: 0, 4: 1, 5: 0, 6: 1, 7: 0, 8: 0, 9: 1, 10: 1, 11: 1, 12: 1, 13: 1, 14: 0, 15: 1, 16: 1, 17: 1, 18: 1, 19: 1}
+    PIN = {1: 1, 2: 1, 3: 0, 5: 0, 6: 1, 7: 0, 8: 0, 9: 1, 10: 1, 12: 1, 13: 1, 14: 0, 15: 1, 16: 1, 17: 1, 18: 1, 19: 1}
     A += [a[i] == PIN[i] for i in pinned]
+    if group == 'type': A.append(a[11] == 1)      # the function's doc lines vary in the other group
     if tier == 'quick':
         # doc-line counts vary one item at a time (the others carry one line)
-        mine = [i for i in DOCS if i not in pinned]
+        mine = [i for i in DOCS if i not in pinned and not (group == 'type' and i == 11)]
         dev = [z3.If(a[i] != 1, z3.BitVecVal(1, 8), z3.BitVecVal(0, 8)) for i in mine]
         A.append(z3.ULE(sum(dev[1:], dev[0]), 1))
     return A
@@ -51,7 +52,7 @@ def slices(tier, rng):
     out = []
     for ps in ((8,) if tier == 'quick' else (4, 8)):
         for group in ('type', 'other'):
-            out.append(Slice('marks-%s-ps%d' % (group, ps), 't_marks', 20, lambda a, ps=ps, group=group: assume(a, ps, tier, group), opts={'must_reach': ['ok']}))
+            out.append(Slice('marks-%s-ps%d' % (group, ps), 't_marks', 21, lambda a, ps=ps, group=group: assume(a, ps, tier, group), opts={'must_reach': ['ok']}))
     return out
 
 
@@ -80,6 +81,17 @@ def leaf_queries(I, a, leaf, py, sl):
         vis_is(ra.vis, a[2]); vis_is(rb.vis, a[3]); doc_is(ra.doc, 'a', a[10]); doc_is(rb.doc, 'b', z3.BitVecVal(0, 64))
         g = [f for f in T.functions if f.name == 'g'][0]
         vis_is(g.vis, a[4]); doc_is(g.doc, 'g', a[11])
+        # the derived type D: base field with the declared visibility; T's function re-exposed, public and documented, iff it is public on T
+        D = Item(its['m::D'])
+        rt = [r for r in D.regions if r.name == 't'][0]
+        vis_is(rt.vis, a[20])
+        if not rt.is_base or len(D.regions) != 1: bad.append(z3.BoolVal(True))
+        fw = [f for f in D.functions if f.name == 'g']
+        bad.append(z3.BoolVal(len(fw) == 1) != (a[4] != 0))
+        if len(D.functions) != len(fw): bad.append(z3.BoolVal(True))
+        if fw:
+            if fw[0].vis != 'pub' or tuple(fw[0].body) != ('field', 't', 'g'): bad.append(z3.BoolVal(True))
+            doc_is(fw[0].doc, 'g', a[11])
         vis_is(E.vis, a[12]); doc_is(E.doc, 'E', a[16])
         flag_is(E.copyable, a[13] != 0); flag_is(E.cloneable, z3.Or(a[13] != 0, a[14] != 0)); flag_is(E.defaultable, a[15] != 0)
         if E.default_index is None: bad.append(a[15] != 0)
@@ -109,7 +121,7 @@ def describe(template, args):
     p = lambda f: 'pub ' if f else ''
     marks = lambda c, cl, df: ''.join(', ' + m for m, f in (('copyable', c), ('cloneable', cl), ('defaultable', df)) if f)
     return ('// pointer size %d\n%s%s#[%s%s]\n%stype T {\n%s    %sa: u64,\n    %sb: u64,\n}\nimpl T {\n%s    #[address(64)] %sfn g(&self) -> u32;\n}\n'
-            'pub type V { vftable {\n%s    %sfn v(&self);\n} }\n%s#[_%s]\n%senum E: u32 { A, %sB }') % (
+            'pub type D { #[base] %st: T }\npub type V { vftable {\n%s    %sfn v(&self);\n} }\n%s#[_%s]\n%senum E: u32 { A, %sB }') % (
                 a[0], d('module', a[19]).replace('///', '//!'), d('T', a[9]), 'packed' if a[8] else 'align(8)', marks(a[5], a[6], a[7]), p(a[1]), d('a', a[10], '    '),
-                p(a[2]), p(a[3]), d('g', a[11], '    '), p(a[4]), d('v', a[18], '    '), p(a[17]), d('E', a[16]), marks(a[13], a[14], a[15]), p(a[12]),
+                p(a[2]), p(a[3]), d('g', a[11], '    '), p(a[4]), p(a[20] if len(a) > 20 else 1), d('v', a[18], '    '), p(a[17]), d('E', a[16]), marks(a[13], a[14], a[15]), p(a[12]),
                 '#[default] ' if a[15] else '')
